@@ -44,7 +44,7 @@ func Verif_C17_RpmCompression() {
 			v.Assert(verifInEnum(d, enum), "rpm-compression-accepted-value-is-in-the-schema-enum")
 		}
 	}
-	s := v.NondetString("compression", v.Bound("C17.len", 6, 7))
+	s := v.NondetString("compression", v.Bound("C17.len", 6, 8))
 	v.Assume(v.AllIn(s, "a-z0-9:-"))
 	info := verifInfo("1.0.0", "", "", "", "")
 	info.RPM.Compression = s
